@@ -247,6 +247,9 @@ def r19c(ctx):
                 muts.append(x)
             if isinstance(x, ast.Subscript) and isinstance(x.ctx, (ast.Store, ast.Del)) and dotted(x.value) in aliases | {"DEFAULT_GLOBALS"}:
                 muts.append(x)
+            # `d |= other` updates a dict in place (`d = d | other` does not)
+            if isinstance(x, ast.AugAssign) and isinstance(x.op, ast.BitOr) and dotted(x.target) in aliases | {"DEFAULT_GLOBALS"}:
+                muts.append(x)
     # ... and nothing is kept on the Expression between evaluations: the same compiled expression is evaluated for every pair of
     # nodes, so state stored on self (a merged scope, a memo of resolved names) makes the variables of one call resolvable in the next
     kept = []
